@@ -301,6 +301,7 @@ class Run:
         self.level = 'proof'
         self.extra = {}
         self.verbose = bool(os.environ.get('VERIF_VERBOSE'))
+        self.known = {f['mechanism'] for f in load_findings() if f.get('property') == pid and f.get('status') == 'known'}
         if os.path.isdir(REPLAYS):
             for fn in os.listdir(REPLAYS):
                 if fn.startswith(pid + '-'):
@@ -344,8 +345,12 @@ class Run:
         if key is not None and nontrivial:
             self.distinct.add((stream, key))
 
-    def disagree(self, stream, case, impl, model):
+    def disagree(self, stream, case, impl, model, explained_by=None):
         s = self.stream(stream)
+        if explained_by is not None and explained_by in self.known:
+            # the model does not reproduce a listed, unrepaired defect on this case: not a broken correspondence
+            s['explained_by_known_finding'] = s.get('explained_by_known_finding', 0) + 1
+            return
         s['model_vs_impl_disagreements'] += 1
         if s['model_vs_impl_disagreements'] <= 5 or (s['model_vs_impl_disagreements'] <= 400 and self.verbose):
             self.broken.append({'kind': 'correspondence', 'name': f'model-vs-implementation:{stream}',
